@@ -41,7 +41,15 @@ Universes == <<
      genes |-> <<GP(CrossRev(8, 9, 1), <<"a">>, 3), GP(Simple(4, 5, 1), <<"b">>, 2), GP(Simple(1, 2, -1), <<>>, 1),
                  GP(Cross(6, 9, 1), <<>>, 0)>>,
      areas |-> <<PAp(Cross(8, 9, 1), Cross(7, 9, 2), "a", 0), PAp(Simple(4, 5, 1), Simple(3, 6, 1), "b", 0),
-                 SAp(Simple(0, 2, 1), 1), SAp(Simple(5, 7, 1), 0), PAp(Simple(4, 5, 1), Simple(3, 6, 1), "c", 1)>>] >>
+                 SAp(Simple(0, 2, 1), 1), SAp(Simple(5, 7, 1), 0), PAp(Simple(4, 5, 1), Simple(3, 6, 1), "c", 1)>>],
+    (* 4: ring of 12.  an origin-spanning region holding genes with several exons: the origin inside an intron (both
+          strands), an exon cut by the origin followed by a further exon, and an origin-spanning subregion; a second,
+          ordinary region behind it *)
+    [L |-> 12, circ |-> TRUE,
+     genes |-> <<GP(Loc(<< <<10, 11>>, <<1, 2>> >>, 1), <<"a">>, 0), GP(Loc(<< <<2, 3>>, <<9, 10>> >>, -1), <<>>, 3),
+                 GP(Loc(<< <<11, 12>>, <<0, 1>>, <<3, 4>> >>, 1), <<>>, 1), GP(Simple(6, 7, 1), <<"b">>, 1)>>,
+     areas |-> <<PAp(Cross(10, 12, 2), Cross(9, 12, 5), "a", 0), SAp(Cross(11, 12, 1), 0),
+                 PAp(Simple(6, 7, 1), Simple(6, 8, 1), "b", 0)>>] >>
 uni == Universes[u]
 ASSUME PrintT(<<"UNIVERSES", Universes>>)
 
